@@ -48,6 +48,11 @@ func (e *env) defer_(req probeReq, line string, then func(string)) {
 	e.pending = append(e.pending, pendingOp{req, line, then})
 }
 
+// deferAlways is defer_ without the cap (corpus and witness lines).
+func (e *env) deferAlways(req probeReq, line string, then func(string)) {
+	e.pending = append(e.pending, pendingOp{req, line, then})
+}
+
 func runProbe(req probeReq) string {
 	switch req.Kind {
 	case "debcmp":
